@@ -28,7 +28,7 @@ static void hkdf(void)
             size_t ol = outs[oi];
             if (!full && ol > 257 && ol <= LIMIT) continue;
             uint8_t *o = hx_buf(ol);
-            int r = lib_hkdf(o, ol, kl ? key : 0, kl, sl ? salt : 0, sl, il ? info : 0, il);
+            int r = lib_hkdf(o, ol, HX_OPT(key, kl), kl, HX_OPT(salt, sl), sl, HX_OPT(info, il), il);
             hx_stat("evaluations", 1); hx_stat("nontrivial", 1);
             if (ol > LIMIT) { if (r >= 0) hx_fail(A ? "hkdfa:limit" : "hkdf:limit", "outlen=%zu accepted (result %d): more than 255 blocks must be refused keylen=%zu saltlen=%zu infolen=%zu", ol, r, kl, sl, il); }
             else if (r != 0) hx_fail(A ? "hkdfa:status" : "hkdf:status", "outlen=%zu result %d", ol, r);
@@ -106,7 +106,7 @@ static void pbkdf2(void)
         if (hm) ref_pbkdf2_hmac(pw, pl, salt, sl, cnt, e, 100); else ref_pbkdf2(pw, pl, salt, sl, cnt, e, 100);
         for (unsigned oi = 0; oi < 10; oi++) {
             size_t ol = outs[oi]; uint8_t *o = hx_buf(ol);
-            if (hm) ascon_pbkdf2_hmac(o, ol, pl ? pw : 0, pl, sl ? salt : 0, sl, cnt); else ascon_pbkdf2(o, ol, pl ? pw : 0, pl, sl ? salt : 0, sl, cnt);
+            if (hm) ascon_pbkdf2_hmac(o, ol, HX_OPT(pw, pl), pl, HX_OPT(salt, sl), sl, cnt); else ascon_pbkdf2(o, ol, HX_OPT(pw, pl), pl, HX_OPT(salt, sl), sl, cnt);
             hx_stat("evaluations", 1); hx_stat("nontrivial", 1);
             if (memcmp(o, e, ol)) hx_fail(hm ? "pbkdf2-hmac:value" : "pbkdf2:value", "differs from RFC 8018: pwlen=%zu saltlen=%zu count=%lu outlen=%zu pat=%d", pl, sl, cnt, ol, pat);
             if (!hx_buf_ok(o, ol)) hx_fail(hm ? "pbkdf2-hmac:stray-write" : "pbkdf2:stray-write", "outlen=%zu", ol);
@@ -140,7 +140,7 @@ static void kdf(void)
     for (int kl = 0; kl <= mk; kl++) for (int cl = 0; cl <= mc; cl += (tier || cl < 10) ? 1 : 7) for (unsigned oi = 0; oi < 11; oi++) {
         size_t ol = outs[oi]; uint8_t *o = hx_buf(ol);
         ref_kdf(A, key, kl, cust, cl, e, ol);
-        if (A) ascon_kdfa(o, ol, kl ? key : 0, kl, cl ? cust : 0, cl); else ascon_kdf(o, ol, kl ? key : 0, kl, cl ? cust : 0, cl);
+        if (A) ascon_kdfa(o, ol, HX_OPT(key, kl), kl, HX_OPT(cust, cl), cl); else ascon_kdf(o, ol, HX_OPT(key, kl), kl, HX_OPT(cust, cl), cl);
         hx_stat("evaluations", 1); hx_stat("nontrivial", 1);
         if (memcmp(o, e, ol) || !hx_buf_ok(o, ol)) hx_fail(A ? "kdfa:oneshot" : "kdf:oneshot", "differs from cXOF('KDF'): keylen=%d customlen=%d outlen=%zu pat=%d", kl, cl, ol, pat);
         memset(o, 0xAA, ol);
